@@ -1212,6 +1212,7 @@ def run(ck):
     facts = read_facts()
     ck.notes["generated_facts"] = facts
     pg.setup_impl()
+    ck.notes["inprocess_launches"] = inprocess_launches(ck)
     root = tempfile.mkdtemp(prefix="c09_", dir=os.environ.get("TMPDIR", "/tmp"))
     try:
         _run(ck, rng, thorough, facts, root)
@@ -1337,6 +1338,35 @@ def _run(ck, rng, thorough, facts, root):
                                 "merges run-space files; the model has one logical run-space file.")
     ck.cov["trusted_base"] = TRUSTED
     ck.log("correspondence: %d/%d launches agree; %d CLI invocations; stats %s" % (agreed, len(lits), n_cli, stats))
+
+
+def inprocess_launches(ck):
+    """Several launches in ONE process (re-submission with the same launch id / idempotency key): every launch
+    must still be bracketed by exactly one run_space_start (first) and one run_space_end (last), and ids from an
+    idempotency key must be reproducible."""
+    env = dict(os.environ)
+    env.update({"PYTHONPATH": core.REPO, "PYTHONHASHSEED": "0", "PYTHONDONTWRITEBYTECODE": "1"})
+    try:
+        p = subprocess.run([core.PY, os.path.join(core.ROOT, "harness", "lib", "c09_inprocess.py")], env=env, cwd="/tmp",
+                           stdout=subprocess.PIPE, stderr=subprocess.PIPE, text=True, timeout=300)
+        res = json.loads(p.stdout)
+    except Exception as ex:  # noqa
+        ck.corr_problem("in-process launches did not run", repr(ex))
+        return 0
+    by_label = {}
+    for r in res:
+        want = ["run_space_start"] + ["pipeline_start", "pipeline_end"] * r["planned"] + ["run_space_end"]
+        if r["exit"] != 0 or r["lifecycle"] != want:
+            ck.fail_input("C09:bracket:repeated-launch-in-one-process:%s" % r["label"],
+                          "launch %d (%s) in a process that already ran launches: lifecycle %s, expected %s (exit %s)"
+                          % (r["launch"], r["label"], r["lifecycle"], want, r["exit"]), {"kind": "inprocess", "launches": res})
+        by_label.setdefault((r["label"]), []).append(r["launch_ids"])
+    if len({json.dumps(x) for x in by_label.get("key", [])}) > 1:
+        ck.fail_input("C09:launch-id:idempotency-key-not-reproducible-in-one-process", "launch ids %s" % by_label["key"], {"kind": "inprocess", "launches": res})
+    gen = by_label.get("generated", [])
+    if len(gen) == 2 and gen[0] == gen[1]:
+        ck.fail_input("C09:launch-id:generated-ids-repeat", "two generated launch ids are equal: %s" % gen, {"kind": "inprocess", "launches": res})
+    return len(res)
 
 
 def replay(obj):
